@@ -1,4 +1,5 @@
 import PcfgVerif.Properties.EditCore
+import PcfgVerif.Model.ExpandSpec
 /-!
 # C20 — edit_rules only removes base structures, and only those that fail the filter
 
@@ -76,5 +77,14 @@ theorem C20_only_failing_removed (lo hi mn mx : Nat)
     (hk : Generated.EditRules.keepLen lo hi mn mx = false) :
     hi ≠ 0 ∧ (lo < mn ∨ (mx ≠ 0 ∧ mx < hi)) :=
   removed_has_failing_guess lo hi mn mx hk
+
+/-- where the label arithmetic and the real length part company (recorded known finding, replayed on the
+real guesser by the harness): a letter whose upper-casing is longer than one character under a `U` mask.
+The value `aß` stored under `A2` with the mask `LU` is emitted as `aSS` — three characters for a label that
+says two; `LabelLenOK` (the premise of `C20_guess_lengths`) is what fails for such a value. -/
+theorem C20_case_expansion_witness :
+    productSpec (fun c => if c = 'ß' then ['S', 'S'] else [c.toUpper])
+      [("A2", [[['a', 'ß']]]), ("C2", [[['L', 'U']]])] [] [("A2", 0), ("C2", 0)] = [['a', 'S', 'S']] := by
+  decide
 
 end Pcfg.C20
